@@ -182,9 +182,13 @@ class TrackedArray(np.ndarray):
         during copies and certain types of slicing.
         """
 
-        self._dirty_hash = True
         if isinstance(obj, type(self)):
+            if np.may_share_memory(self, obj):
+                # we are a view of `obj` so keep a reference to it:
+                # `self.base` may have been collapsed to a plain array
+                self.__dict__["_source"] = obj
             obj._dirty_hash = True
+        self._dirty_hash = True
 
     @property
     def _dirty_hash(self):
@@ -193,7 +197,7 @@ class TrackedArray(np.ndarray):
         TrackedArray changes whenever the array it views changes,
         which the view can't observe, so a view is always dirty.
         """
-        return self.__dict__.get("_dirty", True) or isinstance(self.base, TrackedArray)
+        return self.__dict__.get("_dirty", True) or "_source" in self.__dict__
 
     @_dirty_hash.setter
     def _dirty_hash(self, value):
@@ -201,10 +205,10 @@ class TrackedArray(np.ndarray):
         if value:
             # a write through a view also modifies
             # the tracked arrays that it is a view of
-            base = self.base
-            while isinstance(base, TrackedArray):
-                base.__dict__["_dirty"] = True
-                base = base.base
+            source = self.__dict__.get("_source")
+            while source is not None:
+                source.__dict__["_dirty"] = True
+                source = source.__dict__.get("_source")
 
     def __array_wrap__(self, out_arr, context=None, *args, **kwargs):
         """
